@@ -286,6 +286,11 @@ def mutate_source(b, op):
     b.ctx.ev("mutated", i, how)
 
 
+def generators_closed_by_tool(b):
+    """names of the caller's synchronous generators that the library closed (the stdlib only ever advances them)"""
+    return [s_.name for s_ in b.srcs if getattr(s_, "closed_by_tool", False)]
+
+
 def consumer_view(log):
     return [e for e in log if e[0] in CONSUMER_EVENTS]
 
